@@ -61,10 +61,14 @@ def lookup_oracle(c, out, hist, where, elsewhere=None):
     for uri in ("http://a/absent", "http://nowhere/absent"):
         nsuri, local = uri.rsplit("/", 1)[0] + "/", uri.rsplit("/", 1)[1]
         probes.append((uri, "absent-qname", QualifiedName(Namespace("ab9", nsuri), local)))
+    # spellings the container cannot resolve (or resolves to a name nothing carries): never a record, whatever else the
+    # container holds - anonymous relations in particular
+    for x in ("nosuchprefix9:e1", "_:b0", "barelocal9", "http://nowhere9.example/q", Identifier("http://nowhere9.example/q"), ""):
+        probes.append(("unresolvable:%r" % (x,), "unresolvable-spelling", x))
     ok = True
     # a look-up with a QualifiedName may register that name's namespace in the container (and make a later
     # string look-up resolvable through it): ask the questions that cannot register anything first
-    rank = {"printed-name": 0, "full-uri": 1, "identifier-object": 2, "own-qname": 3, "present-elsewhere-qname": 4,
+    rank = {"unresolvable-spelling": -1, "printed-name": 0, "full-uri": 1, "identifier-object": 2, "own-qname": 3, "present-elsewhere-qname": 4,
             "foreign-prefix-qname": 5, "absent-qname": 6}
     probes.sort(key=lambda p: rank[p[1]])
     for uri, how, x in probes:
